@@ -91,6 +91,10 @@ class FakeScheduler(object):
                                  job.run_after), job))
 
     def has_scheduled_jobs(self, **filters):
+        if not getattr(self.world, 'job_dedupe', True):
+            # two engine processes: each one's check precedes the other's
+            # insert (the check and the insert are not atomic)
+            return False
         for ev in self.world.events:
             if ev.kind != 'job':
                 continue
